@@ -857,6 +857,9 @@ def apply_mutant(name):
             "want_reply and self._send_state != 'closed'",
             "want_reply and self._send_state not in {'closed', "
             "'close_pending'}"),
+        'no_credit_closing': (
+            C, '_accept_data', "if self._send_state == 'close_pending':",
+            'if False:'),
         'eof_while_paused_lost': (
             C, '_flush_recv_buf', "self._recv_paused != 'starting'",
             'not self._recv_paused'),
@@ -881,6 +884,7 @@ MUTANTS = [
     ('no_reply_close_pending', ['REQ_KNOWN_R', 'REQ_UNKNOWN_R'],
      ['Reaction']),
     ('eof_while_paused_lost', ['EOF'], ['Reaction']),
+    ('no_credit_closing', ['DATA_SMALL', 'DATA_EXACT'], ['Reaction']),
 ]
 
 
@@ -906,4 +910,5 @@ def mutant_relevant(name, row):
         'no_reply_close_pending': ss == 'close_pending',
         'eof_while_paused_lost': rs == 'open' and rd == 'paused' and
         not row['buf'],
+        'no_credit_closing': rs == 'open' and ss == 'close_pending',
     }[name]
